@@ -3,8 +3,15 @@ package main
 func checkC09Glue(c *Ctx, r *Report)        {}
 func asmPositiveControls(c *Ctx, r *Report) {}
 
-func c16More(c *Ctx, r *Report, p *Prog, f *Folder, P, N interface{}) {}
+func c16More(c *Ctx, r *Report, p *Prog, f *Folder, P, N interface{}) {
+	// (b) canonical decode: inventories of both SetBytes (bound folded to p-1 resp. n-1) and of the point decoder
+	c03Decoders(r, p, f)
+}
 
-func c15More(c *Ctx, r *Report, p *Prog, f *Folder) {}
+func c15More(c *Ctx, r *Report, p *Prog, f *Folder) {
+	// (b) strict decoding: inventory of (*SM2Point).SetBytes and of the coordinate decoder
+	c03Decoders(r, p, f)
+	c12CurveEquation(r, p, f)
+}
 
 func taintPositiveControls(c *Ctx, r *Report) {}
